@@ -2006,3 +2006,12 @@ DEPTH_STREAM_RULE = (" Tags depth:<family>:<layer kind>:<shape> (stypes::run_dep
                      "universal seed has no error-swallowing visitor (the model-level statement is c14_typed_depth_restored).")
 PROPS["C12"]["rule"] += DEPTH_STREAM_RULE
 PROPS["C14"]["rule"] += DEPTH_STREAM_RULE
+# ---- fourth-round seed misses (branch wip-h2): C13-8 (raw buffer validated before the I/O error is propagated), C05-8 / C06-8 / C05-9 (object-KEY
+#      position of the text serializer and of bytes targets), C14-8 (float_roundtrip: parse_decimal_overflow on decimals below 0.1)
+PROPS["C13"]["rule"] += (" Viable prefixes (lean/SJ/Spec/Viable.lean, verdict judgeViable of ops rfault / rfault1 / rfaultt for the targets value, ignored, raw, "
+    "rawvec, rawmap): 'the bytes delivered before the fault already doom the input' is judged on the SPECIFICATION side, from the delivered prefix alone - "
+    "Spec.Viable.strictViable runs a byte automaton over the RFC 8259 grammar (every non-rejecting state has a completion) and Spec.Utf8.validUtf8 on the "
+    "prefix extended by each of the nine shortest completions of a truncated character, so a prefix that ends INSIDE a multi-byte UTF-8 character is viable; "
+    "surrogate escapes, numbers of more than 200 integer digits or 3 exponent digits and nesting of 100 and more count as 'not sure' (no verdict). A delivered fault "
+    "after a viable prefix must surface as Io with the reader's kind; comparing with what the crate itself makes of the same bytes followed by a clean end of "
+    "input (judgeFault) is kept for the other prefixes and for the five typed targets, but is no longer the only test (it is blind to a change that corrupts both runs alike: seed C13-8).")
